@@ -50,6 +50,20 @@ Theorem C10_extension_object_parses : forall E tid body j, nid_dom tid = true ->
   exists s, json_encode E (VExtObj tid body) = Ok (Some s) /\ jparse s = Some j.
 Proof. exact ext_parses_as_json. Qed.
 
+(* a Variant built without an explicit type: Type is the built-in number of the value's class *)
+Theorem C10_variant_type_inferred : forall E v t j, variant_type_of v = Some t -> dom10 v = true -> texts_ok v = true -> shape v = Some j ->
+  exists s, json_encode_variant_auto E (Some v) = Ok (Some s) /\ jparse s = Some (JObj [(lit "Type", JNum (decZ t)); (lit "Body", j)]).
+Proof. exact variant_auto_parses. Qed.
+Theorem C10_variant_type_table :
+  (forall b, variant_type_of (VBool b) = variant_number (lit "Boolean")) /\ (forall k z, variant_type_of (VInt k z) = variant_number (ikind_name k)) /\
+  (forall f, variant_type_of (VFloat false f) = variant_number (lit "Float")) /\ (forall f, variant_type_of (VFloat true f) = variant_number (lit "Double")) /\
+  (forall s, variant_type_of (VString s) = variant_number (lit "String")) /\ (forall d, variant_type_of (VDateTime d) = variant_number (lit "DateTime")) /\
+  (forall s, variant_type_of (VGuid s) = variant_number (lit "Guid")) /\ (forall b, variant_type_of (VByteString b) = variant_number (lit "ByteString")) /\
+  (forall r, variant_type_of (VXmlRaw r) = variant_number (lit "XmlElement")) /\ (forall n, variant_type_of (VNodeId n) = variant_number (lit "NodeId")) /\
+  (forall t l, variant_type_of (VLocText t l) = variant_number (lit "LocalizedText")) /\ (forall t b, variant_type_of (VExtObj t b) = variant_number (lit "ExtensionObject")) /\
+  (forall z s n, variant_type_of (VEnum z s n) = variant_number (lit "Int32")).
+Proof. exact variant_type_table. Qed.
+
 Print Assumptions C10_text_lossless.
 Print Assumptions C10_shape.
 Print Assumptions C10_variant.
@@ -62,3 +76,5 @@ Print Assumptions C10_reader_reads_printer.
 Print Assumptions C10_parses_as_json.
 Print Assumptions C10_variant_parses_as_json.
 Print Assumptions C10_extension_object_parses.
+Print Assumptions C10_variant_type_inferred.
+Print Assumptions C10_variant_type_table.
